@@ -220,8 +220,8 @@ class _Child(object):
             with COUNTERS.lock:
                 st["on_connect"], st["on_disconnect"] = COUNTERS.on_connect, COUNTERS.on_disconnect
                 st["live_instances"] = len(COUNTERS.instances)
-        if hasattr(srv, "workers"):
-            st["workers_alive"] = sum(1 for w in srv.workers if w.is_alive())
+        if hasattr(srv, "workers") and hasattr(srv, "polling_thread"):
+            st["workers_alive"] = sum(1 for w in list(srv.workers) if w.is_alive())
             st["polling_alive"] = srv.polling_thread.is_alive()
         return st
 
@@ -279,7 +279,10 @@ class _Child(object):
     def executor(self):
         srv = self.server
         t0 = time.time()
-        while not srv.active and not self.start_returned and time.time() - t0 < 30:
+        def started():
+            # ThreadPoolServer._listen() sets `active` before it has created its workers and polling thread
+            return srv.active and (not hasattr(srv, "nbthreads") or hasattr(srv, "polling_thread"))
+        while not started() and not self.start_returned and time.time() - t0 < 30:
             time.sleep(0.005)
         self.emit(dict(id=0, ready=bool(srv.active), port=srv.port, host=srv.host, pid=os.getpid(), kind=self.kind))
         while True:
